@@ -38,6 +38,8 @@ PROBES = [
     "fired:interrupt",
     "hard_linked_documents",
     "shape:dirty-chain",
+    "shape:stdin",
+    "stdin_faults_judged",
     "through_api",
     "two_faults_in_one_run",
     "kill_during_working_copy_write",
@@ -334,7 +336,132 @@ def _generate_dirty_chain(rng, tier):
     return sc
 
 
+def _generate_stdin(rng, tier):
+    """The document arrives on standard input (CLI) or as a string (API): the same
+    containment is owed - error reported, system-error result, nothing left behind."""
+    label, data = workload.draw_docs(rng, 1, allow_concat=False)[0]
+    data = data[:20000]
+    use_api = rng.random() < 0.3
+    flags, coe, scheme = _flags(rng, [], rng.choice(["default", "some_disabled"]))
+    sc = {
+        "cls": workload.draw_class(rng),
+        "world": workload.draw_world(rng),
+        "shape": "stdin",
+        "label": label,
+        "doc": b64(data),
+        "flags": flags,
+        "api": use_api,
+        "coe": coe,
+        "scheme": scheme,
+        "mode": "scan",
+        "stdin_chunks": [rng.choice([1, 7, 64, 4096])],
+        "tier": tier,
+        "faults": [],
+    }
+    if use_api:
+        try:
+            data.decode("utf-8")
+        except UnicodeDecodeError:
+            sc["skip"] = "document is not text"
+            return sc
+        sc["flags"], sc["coe"], sc["scheme"] = [], False, "default"
+    dry = cached_run(_stdin_request(sc, record_sites=True), sc["cls"])
+    if not done(dry):
+        sc["skip"] = "dry run status %s" % dry.get("status")
+        return sc
+    sites = dry["result"]["sites"]
+    cb = [s for s in sites if s[0].startswith("cb/")]
+    parse = [s for s in sites if s[0] == "parse"]
+    prov = [s for s in sites if s[0] == "prov"]
+    fs = [s for s in sites if s[0].startswith("fs/")]
+
+    def plan(site, act, exc=None):
+        entry = {"site": site[0], "file": site[1], "ord": site[2], "act": act}
+        if exc:
+            entry["exc"] = exc
+        return entry
+
+    faults = []
+    for site in rng.sample(cb, min(len(cb), 6 if tier == "quick" else 30)):
+        faults.append({"kind": "cb", "plan": plan(site, rng.choice(["raise", "raise_after"]), rng.choice(EXCS))})
+    for site in parse:
+        faults.append({"kind": "parse", "plan": plan(site, "badtok")})
+    for site in rng.sample(prov, min(len(prov), 2 if tier == "quick" else 6)):
+        faults.append({"kind": "prov", "plan": plan(site, "raise", "RuntimeError")})
+    for site in rng.sample(fs, min(len(fs), 4 if tier == "quick" else 40)):
+        entry = plan(site, "oserror:" + rng.choice(OSERRS))
+        faults.append({"kind": "oserror", "plan": entry})
+    if not use_api:
+        faults.append({"kind": "undecodable", "poison": rng.choice(sorted(carriers.POISON))})
+    sc["faults"] = faults
+    return sc
+
+
+def _stdin_request(sc, plan=None, record_sites=False, poison=None):
+    data = sc["doc"] if poison is None else b64(carriers.POISON[poison])
+    if sc["api"]:
+        op = {"kind": "api", "new": True, "build": [], "call": ["scan_string", [unb64(data).decode("utf-8")], {}]}
+    else:
+        op = {"kind": "cli", "argv": list(sc["flags"]) + ["scan-stdin"], "stdin_b64": data, "stdin_chunks": sc["stdin_chunks"]}
+    request = {"files": {}, "world": sc["world"], "cpu": 30, "ops": [op]}
+    if plan:
+        request["plan"] = plan
+    if record_sites:
+        request["record_sites"] = True
+    return request
+
+
+def _evaluate_stdin(sc):
+    import collections
+
+    stats = collections.Counter()
+    violations, digests = [], []
+    faults = collections.defaultdict(lambda: [0, 0])
+    evals = 1
+    entry_point = "scan_string" if sc["api"] else "scan-stdin"
+    for fault in sc["faults"]:
+        reply = run(_stdin_request(sc, plan=[fault["plan"]] if fault.get("plan") else None, poison=fault.get("poison")), sc["cls"])
+        evals += 1
+        kind = fault["kind"]
+        faults[kind][0] += 1
+        value = event_digest(reply)
+        if not done(reply):
+            digests.append((value, False))
+            continue
+        fired = bool(reply["result"].get("fired")) or kind == "undecodable"
+        digests.append((value, fired))
+        if not fired:
+            continue
+        faults[kind][1] += 1
+        stats["fault_fired"] += 1
+        stats["stdin_faults_judged"] += 1
+        view = _view(sc, reply["result"]["ops"][0])
+        where = "%s|%s|coe=%s" % (entry_point, kind, sc["coe"])
+        detail = {"fault": fault, "flags": sc["flags"], "entry": entry_point, "document": sc["label"], "exit": view.exit, "stderr": view.stderr[-300:], "exc": view.exc}
+        if view.exc:
+            violations.append(violation("C15/traceback", "C15/traceback|" + where, detail))
+            continue
+        expected = 1  # system error, both schemes
+        if view.exit != expected:
+            violations.append(violation("C15/exit", "C15/exit:not-system-error|" + where, detail))
+        if not view.stderr.strip():
+            violations.append(violation("C15/reported", "C15/reported:nothing|" + where, detail))
+        left = sorted(reply.get("tmp") or {})
+        at_cleanup = kind == "oserror" and fault["plan"]["site"].split("/")[1] in ("remove", "unlink", "rename", "replace")
+        if left and not at_cleanup:
+            violations.append(violation("C15/temp-left", "C15/temp-left|" + where, dict(detail, left=left)))
+        if reply.get("work"):
+            violations.append(violation("C15/damage", "C15/damage:file-created|" + where, dict(detail, created=sorted(reply["work"]))))
+    stats["shape:stdin"] += 1
+    stats["coe:%s" % sc["coe"]] += 1
+    if sc["api"]:
+        stats["through_api"] += 1
+    return {"violations": violations, "evals": evals, "digests": digests, "stats": dict(stats), "faults": dict(faults)}
+
+
 def generate(rng, tier, index):
+    if index % 16 == 7:
+        return _generate_stdin(rng, tier)
     if rng.random() < 0.25:
         return _generate_dirty_chain(rng, tier)
     mode = rng.choice(["scan", "fix", "fix"])
@@ -630,6 +757,8 @@ def evaluate(sc):
     evals = 1
     if sc.get("skip"):
         return {"violations": [], "evals": evals, "digests": [], "stats": {"skipped_dry_run": 1}, "faults": {}, "skipped": True}
+    if sc.get("shape") == "stdin":
+        return _evaluate_stdin(sc)
     for fault in sc["faults"]:
         before = stats["fault_fired"]
         found, value, nontrivial = _judge(sc, fault, stats)
@@ -659,6 +788,16 @@ def reductions(sc):
         for fault in sc["faults"]:
             candidate = copy.deepcopy(sc)
             candidate["faults"] = [fault]
+            yield candidate
+        return
+    if sc.get("shape") == "stdin":
+        if sc["world"] != NEUTRAL_WORLD:
+            candidate = copy.deepcopy(sc)
+            candidate["world"] = dict(NEUTRAL_WORLD)
+            yield candidate
+        if sc["stdin_chunks"] != [4096]:
+            candidate = copy.deepcopy(sc)
+            candidate["stdin_chunks"] = [4096]
             yield candidate
         return
     fault = sc["faults"][0] if sc["faults"] else None
